@@ -66,23 +66,27 @@ Inductive eff :=
 (* callbacks[key][id] holds either an application callback n (stored as 2n) or the partial object
    number k created by _handle_emit on this host (stored as 2k+1); h_parts lists the arguments bound
    in those partials: (issuing host, room, namespace, id) *)
-Record host := mkHost {
+Record hst := mkHst {                            (* what the handlers of a host read and write *)
   h_mgr : mgr;
-  h_wo : bool;                                   (* write_only=True: no server, no listener *)
-  h_cur : nat;                                   (* channel messages consumed so far *)
   h_parts : list (nat * str * str * N)
 }.
-Definition host_init (wo : bool) : host := mkHost mgr_init wo 0 [].
+Record host := mkHost {
+  h_st : hst;
+  h_wo : bool;                                   (* write_only=True: no server, no listener *)
+  h_cur : nat                                    (* channel messages consumed so far *)
+}.
+Definition hst_init : hst := mkHst mgr_init [].
+Definition host_init (wo : bool) : host := mkHost hst_init wo 0.
 
 Definition cb_app (n : N) : N := 2 * n.
 Definition cb_part (k : nat) : N := 2 * N.of_nat k + 1.
 
-Definition HM := M host eff.
+Definition HM := M hst eff.
 Definition set_hmgr (f : mgr -> mgr) : HM unit :=
-  modify (fun s => mkHost (f (h_mgr s)) (h_wo s) (h_cur s) (h_parts s)).
+  modify (fun s => mkHst (f (h_mgr s)) (h_parts s)).
 Definition with_hmgr {A} (f : mgr -> mgr * A) : HM A :=
   s <~ getS ;; let '(m', a) := f (h_mgr s) in
-  putS (mkHost m' (h_wo s) (h_cur s) (h_parts s)) ;;; ret a.
+  putS (mkHst m' (h_parts s)) ;;; ret a.
 
 (* Manager.emit / AsyncManager.emit on host k; cb = the (encoded) callback object *)
 Definition emit_one (k : nat) (ns : str) (payload : list pv) (cb : option N) (se : str * str) : HM unit :=
@@ -110,7 +114,7 @@ Definition handle_emit (k : nat) (event data : pv) (ns : str) (room skip : pv)
   | None => mgr_emit k event data ns room skip None
   | Some (r, n, id) =>
       s <~ getS ;;
-      putS (mkHost (h_mgr s) (h_wo s) (h_cur s) (h_parts s ++ [(origin, r, n, id)])) ;;;
+      putS (mkHst (h_mgr s) (h_parts s ++ [(origin, r, n, id)])) ;;;
       mgr_emit k event data ns room skip (Some (cb_part (List.length (h_parts s))))
   end.
 
@@ -165,12 +169,11 @@ Definition ps_close_room (k : nat) (room : pv) (ns : str) : HM unit :=
   tell (Published (MCloseRoom room ns k)).
 
 (* PubSubManager.emit on host k (through Server.emit, or directly on a write-only manager) *)
-Definition ps_emit (k : nat) (event data : pv) (ns : str) (room skip : pv) (cb : option N) : HM unit :=
-  s <~ getS ;;
+Definition ps_emit (k : nat) (wo : bool) (event data : pv) (ns : str) (room skip : pv) (cb : option N) : HM unit :=
   cbt <~ match cb with
          | None => ret None
          | Some c =>
-             if h_wo s then raise RuntimeError                 (* self.server is None *)
+             if wo then raise RuntimeError                 (* self.server is None *)
              else match room with
                   | PNone => raise ValueError                  (* 'Cannot use callback without a room set.' *)
                   | PStr r =>
@@ -208,13 +211,13 @@ Definition dispatch (k : nat) (m : msg) : HM unit :=
   end.
 
 (* an exception inside the dispatch is logged by the listener and the loop goes on *)
-Definition contained (k : nat) (m : HM unit) : host -> host * list eff :=
+Definition contained (k : nat) (m : HM unit) : hst -> hst * list eff :=
   fun s => match m s with
            | (s1, e1, Ok _) => (s1, e1)
            | (s1, e1, Err x) => (s1, e1 ++ [Logged k x])
            end.
 (* an exception inside an API call reaches the application *)
-Definition api (k : nat) (m : HM unit) : host -> host * list eff :=
+Definition api (k : nat) (m : HM unit) : hst -> hst * list eff :=
   fun s => match m s with
            | (s1, e1, Ok _) => (s1, e1)
            | (s1, e1, Err x) => (s1, e1 ++ [Raised k x])
@@ -226,9 +229,8 @@ Definition host_consume (k : nat) (chan : list msg) (s : host) : host * list eff
   match nth_error chan (h_cur s) with
   | None => (s, [])
   | Some m =>
-      let s0 := mkHost (h_mgr s) (h_wo s) (S (h_cur s)) (h_parts s) in
-      let '(s1, e1) := contained k (dispatch k m) s0 in
-      (s1, Consumed k (h_cur s) :: e1)
+      let '(s1, e1) := contained k (dispatch k m) (h_st s) in
+      (mkHost s1 (h_wo s) (S (h_cur s)), Consumed k (h_cur s) :: e1)
   end.
 
 (* ---- the cluster ---- *)
@@ -269,6 +271,8 @@ Definition idpkts (log : list (str * pkt)) (eio : str) : list (str * N) :=
                       | _ => [] end) log.
 
 (* run a host-level action on host k and account for what it published / delivered *)
+Definition in_host (f : hst -> hst * list eff) (s : host) : host * list eff :=
+  let '(s', es) := f (h_st s) in (mkHost s' (h_wo s) (h_cur s), es).
 Definition on_host (c : cluster) (k : nat) (f : host -> host * list eff) : cluster * list eff :=
   match nth_error (c_hosts c) k with
   | None => (c, [])
@@ -278,13 +282,13 @@ Definition on_host (c : cluster) (k : nat) (f : host -> host * list eff) : clust
   end.
 
 (* Server._handle_connect on host k: manager.connect(eio, ns) with the next generated id *)
-Definition h_connect (k : nat) (eio ns sid : str) : host -> host * list eff :=
+Definition h_connect (k : nat) (eio ns sid : str) : hst -> hst * list eff :=
   fun s => let '(m', r) := mgr_connect (h_mgr s) eio ns sid in
-           (mkHost m' (h_wo s) (h_cur s) (h_parts s),
+           (mkHst m' (h_parts s),
             [Deliver k eio (match r with Some x => PktConnect ns x | None => PktConnectError ns end)]).
 
 (* Server._handle_ack on host k for the ACK the client sends back *)
-Definition h_ack (k : nat) (eio ns : str) (id : N) (args : list pv) : host -> host * list eff :=
+Definition h_ack (k : nat) (eio ns : str) (id : N) (args : list pv) : hst -> hst * list eff :=
   fun s => contained k (fire 3 k (sid_from_eio (h_mgr s) eio ns) id args) s.
 
 Definition is_wo (c : cluster) (k : nat) : bool :=
@@ -294,24 +298,24 @@ Definition step (c : cluster) (o : op) : cluster * list eff :=
   match o with
   | Consume k => on_host c k (host_consume k (c_chan c))
   | Emit k event data ns room skip cb =>
-      on_host c k (api k (ps_emit k event data (ns_or_default ns) room skip cb))
+      on_host c k (in_host (api k (ps_emit k (is_wo c k) event data (ns_or_default ns) room skip cb)))
   (* everything else needs a server: not available on a write-only manager *)
   | Connect k eio ns =>
       if is_wo c k then (c, []) else
-      let '(c1, es) := on_host c k (h_connect k eio (ns_or_default ns) (sid_name (c_fresh c))) in
+      let '(c1, es) := on_host c k (in_host (h_connect k eio (ns_or_default ns) (sid_name (c_fresh c)))) in
       (mkCl (c_hosts c1) (c_chan c1) (c_fresh c + 1) (c_log c1), es)
   | EnterRoom k sid ns room =>
-      if is_wo c k then (c, []) else on_host c k (api k (ps_enter_room k sid (ns_or_default ns) room))
+      if is_wo c k then (c, []) else on_host c k (in_host (api k (ps_enter_room k sid (ns_or_default ns) room)))
   | LeaveRoom k sid ns room =>
-      if is_wo c k then (c, []) else on_host c k (api k (ps_leave_room k sid (ns_or_default ns) room))
+      if is_wo c k then (c, []) else on_host c k (in_host (api k (ps_leave_room k sid (ns_or_default ns) room)))
   | CloseRoom k ns room =>
-      if is_wo c k then (c, []) else on_host c k (api k (ps_close_room k room (ns_or_default ns)))
+      if is_wo c k then (c, []) else on_host c k (in_host (api k (ps_close_room k room (ns_or_default ns))))
   | Disconnect k sid ns =>
-      if is_wo c k then (c, []) else on_host c k (api k (srv_disconnect k sid (ns_or_default ns) false))
+      if is_wo c k then (c, []) else on_host c k (in_host (api k (srv_disconnect k sid (ns_or_default ns) false)))
   | ClientAck k eio j args =>
       if is_wo c k then (c, []) else
       match nth_error (idpkts (c_log c) eio) j with
-      | Some (ns, id) => on_host c k (h_ack k eio ns id args)
+      | Some (ns, id) => on_host c k (in_host (h_ack k eio ns id args))
       | None => (c, [])
       end
   end.
@@ -354,10 +358,10 @@ Fixpoint run_imm (c : cluster) (ops : list op) : cluster * list (list eff) :=
 
 (* ---- the reference: ONE server with a plain Manager holding every client ---- *)
 (* same host-level functions (Manager.emit, Server.disconnect, _handle_ack), no channel; effects carry host 0 *)
-Record single := mkSingle { s_host : host; s_fresh : N; s_log : list (str * pkt) }.
-Definition single_init : single := mkSingle (host_init false) 0 [].
+Record single := mkSingle { s_host : hst; s_fresh : N; s_log : list (str * pkt) }.
+Definition single_init : single := mkSingle hst_init 0 [].
 
-Definition s_on (s : single) (f : host -> host * list eff) : single * list eff :=
+Definition s_on (s : single) (f : hst -> hst * list eff) : single * list eff :=
   let '(h', es) := f (s_host s) in (mkSingle h' (s_fresh s) (s_log s ++ delivered es), es).
 
 Definition single_step (s : single) (o : op) : single * list eff :=
@@ -396,12 +400,12 @@ Definition callbacks_of (es : list eff) : list (nat * N * list pv) :=
   flat_map (fun e => match e with Callback h cb a => [(h, cb, a)] | _ => [] end) es.
 
 (* membership as a function: is sid in room of ns, and through which transport *)
-Definition look (m : mgr) (ns : str) (room : pv) (sid : str) : option str :=
+Definition mlook (m : mgr) (ns : str) (room : pv) (sid : str) : option str :=
   match room_of m ns room with Some b => bd_get b sid | None => None end.
 (* abs: the union of the per-host tables (first host that knows the client) *)
 Fixpoint abs_hosts (hs : list host) (ns : str) (room : pv) (sid : str) : option str :=
   match hs with
   | [] => None
-  | h :: r => match look (h_mgr h) ns room sid with Some e => Some e | None => abs_hosts r ns room sid end
+  | h :: r => match mlook (h_mgr (h_st h)) ns room sid with Some e => Some e | None => abs_hosts r ns room sid end
   end.
 Definition abs (c : cluster) := abs_hosts (c_hosts c).
